@@ -2,6 +2,7 @@ package main
 
 import (
 	"fmt"
+	"sort"
 	"go/token"
 	"go/types"
 	"strings"
@@ -584,4 +585,107 @@ func staleFieldReads(c *Check, rule, fnSpec string) {
 		}
 	}
 	c.Req(len(stores) > 0, rule, funcName(fn)+"/overwrites a field of its argument", fn.Pos(), fmt.Sprint(len(stores), " field(s), ", n, " earlier read(s) checked"), "no field store found (anchor drifted)")
+}
+
+// staleNilError: on the non-nil edge of one error, a function returns another error value that is provably nil there
+// (`x, callErr := f(); if callErr != nil { return nil, Wrap(err, "…") }` with the earlier err already tested nil):
+// the failure is reported as success.  An explicit `return nil` on an error edge is a visible decision and not flagged.
+func staleNilError(c *Check, rule string, fns []*ssa.Function) int {
+	n := 0
+	if c.P.inl == nil {
+		return 0
+	}
+	in := c.P.inl
+	for _, fn := range fns {
+		if len(fn.Blocks) == 0 {
+			continue
+		}
+		res := fn.Signature.Results()
+		if res.Len() == 0 || !isErrorType(res.At(res.Len()-1).Type()) {
+			continue
+		}
+		for _, b := range fn.Blocks {
+			r, ok := lastInstr(b).(*ssa.Return)
+			if !ok || c.P.IsClone(r) || len(r.Results) != res.Len() {
+				continue
+			}
+			rv := r.Results[len(r.Results)-1]
+			if _, isConst := rv.(*ssa.Const); isConst {
+				continue
+			}
+			inner := rv
+			if call, isCall := rv.(*ssa.Call); isCall {
+				if callee := call.Call.StaticCallee(); callee != nil && len(call.Call.Args) > 0 {
+					nm := funcName(c.P.unwrap(callee))
+					if strings.HasSuffix(nm, "errors.Wrap") || strings.HasSuffix(nm, "errors.Wrapf") {
+						inner = call.Call.Args[0]
+					}
+				}
+			}
+			if in.classify(fn, inner, b, 0) != "nil" {
+				continue
+			}
+			// is this return on the non-nil edge of some other error?
+			var other ssa.Value
+			for _, ib := range fn.Blocks {
+				iff, ok := lastInstr(ib).(*ssa.If)
+				if !ok || len(ib.Succs) != 2 {
+					continue
+				}
+				bo, ok := iff.Cond.(*ssa.BinOp)
+				if !ok || (bo.Op != token.NEQ && bo.Op != token.EQL) {
+					continue
+				}
+				var x ssa.Value
+				if isNilConst(bo.Y) {
+					x = bo.X
+				} else if isNilConst(bo.X) {
+					x = bo.Y
+				}
+				if x == nil || !isErrorType(x.Type()) || x == inner {
+					continue
+				}
+				nonNilSucc := 0
+				if bo.Op == token.EQL {
+					nonNilSucc = 1
+				}
+				if edgeDominates(fn, ib, nonNilSucc, b) {
+					other = x
+				}
+			}
+			if other == nil {
+				continue
+			}
+			n++
+			x := c.P.Ex(fn)
+			c.Bad(rule, fmt.Sprintf("%s/returns a nil error on the failure edge of %s", funcName(fn), trunc(x.E(other).String())), r.Pos(),
+				"on the path where "+trunc(x.E(other).String())+" is non-nil the function returns "+trunc(x.E(rv).String())+", which is nil there (tested earlier): the failure is reported as success and the caller carries on")
+		}
+	}
+	return n
+}
+
+// fnsInPackages: in-scope functions whose package path contains one of the fragments (sorted by name).
+func fnsInPackages(c *Check, frags ...string) []*ssa.Function {
+	var out []*ssa.Function
+	for fn := range c.P.AllFuncs {
+		if !inScope(fn) || len(fn.Blocks) == 0 {
+			continue
+		}
+		pp := fnPkgPath(fn)
+		for _, f := range frags {
+			if strings.Contains(pp, f) {
+				out = append(out, fn)
+				break
+			}
+		}
+	}
+	sort.Slice(out, func(i, j int) bool { return funcName(out[i]) < funcName(out[j]) })
+	return out
+}
+
+// noFailureAsSuccess wraps staleNilError with the bookkeeping obligation (the rule's expected violation count is zero).
+func noFailureAsSuccess(c *Check, rule string, fns []*ssa.Function) {
+	n := staleNilError(c, rule, fns)
+	c.Req(len(fns) > 0, rule, "functions scanned", token.NoPos, fmt.Sprintf("%d function(s), %d finding(s)", len(fns), n), "no function in scope (anchor drifted)")
 }
